@@ -17,7 +17,9 @@ Record case := {
   k_jeq : list bool;             (* canonical JSON of export1 = export2, per module: sudo inflation epochs oracle tokenfactory devgas evm *)
   k_kv1 : list (nat * nat * nat * nat); k_kv2 : list (nat * nat * nat * nat);   (* store, namespace, #pairs, digest id *)
   k_q1 : list nat; k_q2 : list nat;                   (* sampled queries (balances, sequences, eth_call, code, storage) *)
-  k_probe : list (Z * nat) * list (Z * nat)           (* imported chain: pending rewards before / after one more allocation *)
+  k_probe : list (Z * nat) * list (Z * nat);          (* imported chain: pending rewards before / after one more allocation *)
+  k_dg_p0 : nat;                                      (* x/devgas params of the chain's own genesis *)
+  k_dg_hist : list (dg_op * bool)                     (* log of wasm instantiations / x/devgas handler calls with their success *)
 }.
 
 Definition opt_eqb {A} (dec : forall a b : A, {a = b} + {a <> b}) (a b : option A) : bool := eqb_of (opt_dec dec) a b.
@@ -25,8 +27,21 @@ Definition opt_eqb {A} (dec : forall a b : A, {a = b} + {a <> b}) (a b : option 
 Definition ns_known (e : nat * nat * nat * nat) : bool :=
   match e with (st, ns, _, _) => existsb (fun x => (fst x =? st) && (snd x =? ns)) known_ns end.
 
+(** the handler model replays the logged x/devgas history: every success / failure predicted, and the registry it
+    ends with is the dumped one *)
+Definition dg_hist_ok (c : cfg) (k : case) : bool :=
+  (* the tables of this case meet the hypothesis [funs_dg_ok] of the history theorems on every key / params id used *)
+  funs_dg_okb (k_F k)
+    (flat_map (fun e => dg_op_keys (fst e)) (k_dg_hist k))
+    (k_dg_p0 k :: dg_params (a_devgas (k_s1 k)) :: flat_map (fun e => dg_op_params (fst e)) (k_dg_hist k)) &&
+  match dg_replay (c_dg_upd c) (k_F k) (k_dg_hist k) ([], dg_genesis (k_dg_p0 k)) with
+  | Some ws => eqb_of devgas_st_dec (snd ws) (a_devgas (k_s1 k))
+  | None => false
+  end.
+
 Definition mismatch (c : cfg) (k : case) : bool :=
   negb (wf_appb (k_F k) (k_env1 k) (k_s1 k)) ||       (* a reachable state outside the theorems' hypotheses *)
+  negb (dg_hist_ok c k) ||
   negb (opt_eqb app_gen_dec (export_app (k_env1 k) (k_s1 k)) (Some (k_e1 k))) ||
   (if k_import_ok k then
      negb (opt_eqb app_st_dec
